@@ -142,3 +142,13 @@ func HKDFExpand(h func() hash.Hash, prk, info []byte, l int) ([]byte, error) {
 	}
 	return okm[:l], nil
 }
+
+// XTSMulAlpha returns t (x) alpha^j for a 16-byte tweak in the IEEE 1619 byte
+// order (byte 0 holds the coefficients of x^0..x^7).
+func XTSMulAlpha(t [16]byte, j int) (out [16]byte) {
+	be := gfMulAlphaPow(leInt(t[:]), j).Bytes()
+	for i := 0; i < len(be); i++ {
+		out[i] = be[len(be)-1-i]
+	}
+	return
+}
